@@ -127,6 +127,14 @@ def execute(case):
             def words(x):
                 return np.ascontiguousarray(np.asarray(x)).view(view).reshape(-1)
 
+            # every line read alone and HELD while the others are read: a returned array must not change afterwards
+            held = [np.asarray(var.isel(rows=k).values) for k in range(L)] + [np.asarray(var.isel(rows=k, columns=slice(0, max(P - 1, 1))).values) for k in range(L)]
+            var.isel(rows=0).values
+            stale = [k for k in range(L) if not np.array_equal(words(held[k]), want[k].reshape(-1))]
+            stale += [k for k in range(L) if not np.array_equal(words(held[L + k]), want[k].reshape(P, -1)[: max(P - 1, 1)].reshape(-1))]
+            if stale:
+                fails.append({"sig": {"kind": "held-result-changed", "type": tc}, "detail": f"{name}: the arrays returned for lines {sorted(set(stale))} changed after later reads of the same image"})
+                continue
             steps = [("last line", lambda: words(var.isel(rows=L - 1).values), want[L - 1]), ("full after last line", lambda: words(var.values), want.reshape(-1))]
             steps += [(f"line {k} alone", (lambda k=k: words(var.isel(rows=k).values)), want[k]) for k in range(L)]
             steps += [("first line", lambda: words(var.isel(rows=slice(0, 1)).values), want[0]), ("full after first line", lambda: words(var.values), want.reshape(-1))]
